@@ -156,8 +156,18 @@ def d2(rep, f, c):
         return
     site = sp_str(sb.raw['span'])
     heads = loop_heads(sb)
-    tot = [i for i, l in enumerate(sb.locals) if l.get('name') == 'total']
-    byt = [i for i, l in enumerate(sb.locals) if l.get('name') == 'bytes']
+    # roles: `bytes` = the loop-carried slice handed to validate_ascii, `total` = the loop-carried count returned when it answers None
+    tot, byt = [], []
+    if len(heads) == 1:
+        for p_ in region_paths(sb, heads[0]):
+            va_ = [e for e in p_.calls() if e[1] == 'ascii::validate_ascii']
+            if len(va_) == 1:
+                a_ = strip_ref(va_[0][2][0])
+                if a_[0] == 'init' and a_[1] not in byt:
+                    byt.append(a_[1])
+                rv_ = p_.env.get(0)
+                if p_.end[0] == 'return' and rv_ is not None and rv_[0] == 'init' and rv_[1] not in tot:
+                    tot.append(rv_[1])
     if len(heads) != 1 or len(tot) != 1 or len(byt) != 1:
         rep.undecidable('C19-D2.single', sfn, 'loop / accumulators not found', site, c)
         return
